@@ -53,6 +53,18 @@ Theorem C02_underlying_flag_ok : underlying_okb = true.
 Proof. exact underlying_ok. Qed.
 Print Assumptions C02_underlying_flag_ok.
 
+Theorem C02_operand_selectors_ok : selectors_okb gen_subexpr_cases gen_typeof_cases gen_typeof_tail = true.
+Proof. exact selectors_ok. Qed.
+Print Assumptions C02_operand_selectors_ok.
+
+Theorem C02_object_is_table_ok : object_is_okb gen_object_is gen_object_is_accepted = true.
+Proof. exact object_is_ok. Qed.
+Print Assumptions C02_object_is_table_ok.
+
+Theorem C02_node_is_table_ok : node_is_okb gen_node_is = true.
+Proof. exact node_is_ok. Qed.
+Print Assumptions C02_node_is_table_ok.
+
 (* ---------------------------------------------------------------- OfKind *)
 Theorem C02_ofkind_table_correct :
   forallb (fun name =>
